@@ -113,12 +113,13 @@ instance : Decidable (Accurate v p x) := by unfold Accurate; infer_instance
 def Eng (t : Parsed) : Prop := t.exp % 3 = 0 ∧ 1 ≤ t.mant ∧ t.mant ≤ 1000
 instance : Decidable (Eng t) := by unfold Eng; infer_instance
 
-/-- `v` lies beyond the representable range (`p` digits, largest exponent `maxExp`) -/
-def Beyond (v : Rat) (p : Nat) (maxExp : Int) : Prop := pow10 (maxExp + p) ≤ qabs v
-instance : Decidable (Beyond v p maxExp) := by unfold Beyond; infer_instance
+/-- `v` lies beyond the representable range: the largest prefix / exponent `maxExp` carries mantissas
+below 1000, so the range ends at `1000·10^maxExp` — whatever the number of digits shown -/
+def Beyond (v : Rat) (maxExp : Int) : Prop := pow10 (maxExp + 3) ≤ qabs v
+instance : Decidable (Beyond v maxExp) := by unfold Beyond; infer_instance
 
 /-- `v` rounded to `p` significant digits reaches the end of the range -/
-def BeyondRounded (v : Rat) (p : Nat) (maxExp : Int) : Prop := pow10 (maxExp + p) ≤ qabs v + halfUnit v p
+def BeyondRounded (v : Rat) (p : Nat) (maxExp : Int) : Prop := pow10 (maxExp + 3) ≤ qabs v + halfUnit v p
 instance : Decidable (BeyondRounded v p maxExp) := by unfold BeyondRounded; infer_instance
 
 /-- accuracy with a relative allowance `tol` for float arithmetic inside the pipeline
@@ -131,10 +132,10 @@ def realFailures (v : Rat) (p : Nat) (maxExp : Int) (t : Option Text) (tol : Rat
   match t with
   | none => ["unreadable"]
   | some (.inf neg) =>
-    (if pow10 (maxExp + p) ≤ qabs v + halfUnit v p + tol * qabs v then [] else ["saturated_inside_range"])
+    (if pow10 (maxExp + 3) ≤ qabs v + halfUnit v p + tol * qabs v then [] else ["saturated_inside_range"])
       ++ (if neg = decide (v < 0) then [] else ["sign"])
   | some (.num q) =>
-    (if Beyond v p maxExp then ["finite_beyond_range"] else [])
+    (if Beyond v maxExp then ["finite_beyond_range"] else [])
       ++ (if q.exp % 3 = 0 then [] else ["exponent_not_multiple_of_3"])
       ++ (if 1 ≤ q.mant ∧ q.mant ≤ 1000 then [] else ["mantissa_range"])
       ++ (if AccurateTol tol v p q.value then [] else ["accuracy"])
@@ -156,6 +157,10 @@ def helperRange : String → Option (Int × Int)
   | "print_capacitance" => some (-12, -3)
   | "print_inductance" => some (-9, -3)
   | _ => none
+
+/-- a phasor `X` denotes `Re(X·e^{jωt}) = |X|·cos(ωt + arg X) = |X|·sin(ωt + arg X + π/2)`: the sine form of a
+time-function text carries the phase plus **one** quarter turn -/
+def specSineQuarterTurns : Int := 1
 
 def defaultMinExp : Int := -16
 def defaultMaxExp : Int := 16
